@@ -12,6 +12,10 @@ CLAIMED = {
  "C07": ("family disconnect: every end-of-stream result checked against sender lifetimes and accepted values; the end must be stable", "5 C07"),
  "C08": ("family blockrecv (quota rule): quiescence detector - deadlock (exact, engine-reported) or no-progress livelock under fair scheduling with a consumer inside a blocking receive", "5 C08"),
  "C14": ("family futpark (quota rule) under the simulated futures executor: a task parked forever at deadlock / no-progress livelock", "5 C14"),
+ "C09": ("engine seq: one simulated thread, generated call sequences over all twelve handle types compared operation by operation with the reference model (return values, handed-back payload identity, no panic, every call returns)", "5 C09"),
+ "C13": ("seq.norecv (all orders of dropping receivers, then every send entry point) + concurrent family norecv (last receiver's drop racing retrying / spinning / parking senders): Disconnected with the identical payload, sink future resolves, no send loop hangs", "5 C13"),
+ "C15": ("seq.fut (sequential Sink/Stream histories against the model, incl. fresh never-wrapped queues), fut.direct (direct try_recv/recv on futures receivers under concurrency; C01-C03 oracles through futures handles), fut.solo (poll / start_send run with every other thread frozen: bounded own steps, never blocks)", "5 C15"),
+ "C18": ("families core.solo / shared.solo on busy/yielding queues: a single try_send / try_recv / try_recv_view with every other thread frozen at an arbitrary operation must return within 2000 own steps and never block on a lock", "5 C18"),
 }
 NA = {
  "C19": "compile-time trait-bound fact (Send/Sync inference); no schedule, clock, fault or history for a simulator to run - see DESIGN.md section 5 C19",
